@@ -10,6 +10,7 @@ import (
 	"hash/fnv"
 	"os"
 	"path/filepath"
+	"runtime"
 	"runtime/debug"
 	"sort"
 	"sync/atomic"
@@ -29,6 +30,8 @@ type Config struct {
 	// CaseCPUBudget is the CPU time one case may use before the in-worker
 	// watchdog gives up on it (seconds).
 	CaseCPUBudget float64
+	// HeapBudget, when non-zero, is the live heap (bytes) one case may reach.
+	HeapBudget    uint64
 	MaxViolations int
 }
 
@@ -54,6 +57,7 @@ type Result struct {
 	LastIdx      int64       `json:"last_idx"`
 	Complete     bool        `json:"complete"`
 	HarnessError string      `json:"harness_error,omitempty"`
+	OwnedHashes  []uint64    `json:"owned_hashes,omitempty"`
 }
 
 // W is a worker: it owns the cases whose key hashes to its shard.
@@ -65,6 +69,10 @@ type W struct {
 	sets    map[string]map[string]struct{}
 	prog    *os.File
 	stopped bool
+	// hashes of non-trivial cases run via DoOwned that another shard might
+	// also have produced
+	ownedHashes []uint64
+	slowest     string
 
 	// watchdog state
 	caseStartCPU atomic.Int64 // ns of process CPU at case start; 0 = idle
@@ -88,6 +96,14 @@ func hashKey(s string) uint64 {
 	h := fnv.New64a()
 	h.Write([]byte(s))
 	return h.Sum64()
+}
+
+// LimitMemory caps the address space of this process so that an input that
+// makes the code under test allocate without bound kills the worker (a
+// recorded event) rather than the machine.
+func LimitMemory(bytes uint64) {
+	lim := syscall.Rlimit{Cur: bytes, Max: bytes}
+	syscall.Setrlimit(syscall.RLIMIT_AS, &lim)
 }
 
 // NewWorker prepares a worker and starts its watchdog.
@@ -130,6 +146,18 @@ func (w *W) watchdog() {
 		if st == 0 {
 			continue
 		}
+		if w.HeapBudget > 0 {
+			var ms runtime.MemStats
+			runtime.ReadMemStats(&ms)
+			if ms.HeapAlloc > w.HeapBudget {
+				idx := w.curIdx.Load()
+				os.WriteFile(filepath.Join(w.OutDir, fmt.Sprintf("timeout.%d", w.Shard)),
+					[]byte(fmt.Sprintf("%d heap=%d\n", idx, ms.HeapAlloc)), 0o644)
+				w.res.LastIdx = idx
+				w.dump()
+				os.Exit(4)
+			}
+		}
 		used := float64(processCPU()-st) / 1e9
 		if used > w.CaseCPUBudget {
 			// The main goroutine is stuck inside the code under test; it is
@@ -165,12 +193,20 @@ func (w *W) Owns(key string) bool {
 }
 
 // Do runs fn as one case if this shard owns key and has not seen it before.
-func (w *W) Do(key string, fn func(r *R)) {
+// It is meant for generators that produce the same stream in every worker.
+func (w *W) Do(key string, fn func(r *R)) { w.do(key, fn, false) }
+
+// DoOwned runs fn as one case of a stream that only this worker generates
+// (seeded with the shard number). Duplicates across workers are removed from
+// the distinct count by the coordinator.
+func (w *W) DoOwned(key string, fn func(r *R)) { w.do(key, fn, true) }
+
+func (w *W) do(key string, fn func(r *R), owned bool) {
 	if w.stopped {
 		return
 	}
 	h := hashKey(key)
-	if h%uint64(w.NShards) != uint64(w.Shard) {
+	if !owned && h%uint64(w.NShards) != uint64(w.Shard) {
 		return
 	}
 	if _, dup := w.seen[h]; dup {
@@ -197,6 +233,12 @@ func (w *W) Do(key string, fn func(r *R)) {
 		}()
 		fn(r)
 	}()
+	if st := w.caseStartCPU.Load(); st != 0 {
+		if ms := (processCPU() - st) / 1e6; ms > w.res.Max["case_cpu_ms"] {
+			w.res.Max["case_cpu_ms"] = ms
+			w.slowest = clip(key, 120)
+		}
+	}
 	w.caseStartCPU.Store(0)
 	w.res.LastIdx = w.idx
 	switch {
@@ -216,6 +258,9 @@ func (w *W) Do(key string, fn func(r *R)) {
 		w.res.Evaluations++
 		if r.nontrivial {
 			w.res.Nontrivial++
+			if owned && h%uint64(w.NShards) != uint64(w.Shard) {
+				w.ownedHashes = append(w.ownedHashes, h)
+			}
 			if r.sample != nil && len(w.res.Samples) < w.samplesMax {
 				w.res.Samples = append(w.res.Samples, r.sample)
 			}
@@ -310,6 +355,7 @@ func (w *W) dump() {
 		sort.Strings(l)
 		w.res.Sets[k] = l
 	}
+	w.res.OwnedHashes = w.ownedHashes
 	b, _ := json.Marshal(&w.res)
 	name := fmt.Sprintf("result.%d.%d.json", w.Shard, w.Resume)
 	os.WriteFile(filepath.Join(w.OutDir, name), b, 0o644)
@@ -317,6 +363,9 @@ func (w *W) dump() {
 
 // Finish writes the worker's result file.
 func (w *W) Finish() {
+	if w.slowest != "" {
+		w.SetAdd("slowest_case_per_worker", fmt.Sprintf("%dms %q", w.res.Max["case_cpu_ms"], w.slowest))
+	}
 	w.res.Complete = !w.stopped || w.res.HarnessError == ""
 	FlushSites(w)
 	w.dump()
